@@ -18,6 +18,35 @@ pub fn check<K: Kmer, P: PayKind>(c: &GCase) -> CheckResult {
     let (g, seen) = build_base::<K, P>(&reads, c.stranded, c.min_count(), c.entry)?;
     let nodes = nodes_of_base(&g);
     let st = check_lossless(&nodes, &seen, k, c.stranded)?;
+    // the node k-mers as a user reads them (k-mer accessors on the packed node storage, at whatever offset the node
+    // landed) must be the windows of the node sequence
+    {
+        use debruijn::Vmer;
+        for (i, n) in nodes.iter().enumerate() {
+            let sl = g.sequences.get(i);
+            let nw = n.seq.len() - k + 1;
+            let got: Vec<K> = sl.iter_kmers::<K>().take(nw + 4).collect();
+            if got.len() != nw {
+                return Err(format!("node {}: iter_kmers yields {} k-mers, the node has {}", i, got.len(), nw));
+            }
+            for (j, km) in got.iter().enumerate() {
+                if crate::ktypes::kseq(km) != n.seq[j..j + k] {
+                    return Err(format!(
+                        "node {}: k-mer {} read through iter_kmers is {} but the node sequence has {} there",
+                        i,
+                        j,
+                        crate::util::to_ascii(&crate::ktypes::kseq(km)),
+                        crate::util::to_ascii(&n.seq[j..j + k])
+                    ));
+                }
+            }
+            let (f, l): (K, K) = sl.both_term_kmer();
+            let mid: K = sl.get_kmer(nw / 2);
+            if crate::ktypes::kseq(&f) != n.seq[..k] || crate::ktypes::kseq(&l) != n.seq[nw - 1..] || crate::ktypes::kseq(&mid) != n.seq[nw / 2..nw / 2 + k] {
+                return Err(format!("node {}: first/last/get_kmer on the packed node disagree with its sequence", i));
+            }
+        }
+    }
     if g.stranded != c.stranded {
         return Err("BaseGraph.stranded does not record the requested mode".into());
     }
